@@ -70,6 +70,11 @@ theorem invF_step {s s' : St} {t : Tid} (hL : InvL s) (hC : InvC s) (h : InvF s)
     exact invF_move h rfl (by intro k hk; rw [hc.atFlag]; exact hk) (by rw [hc.between]; exact id) rfl
       (fun _ _ _ hs => hs) rfl rfl
   | skipDrain c hp hf => exact invF_move h rfl (by cls) (by cls) rfl (fun _ _ _ hs => hs) rfl rfl
+  | skipShared c hp hf => exact invF_move h rfl (by cls) (by cls) rfl (fun _ _ _ hs => hs) rfl rfl
+  | failTry p p' hp hpp hfail =>
+    subst hp
+    rcases hpp with ⟨k, a, h1, h2⟩ | ⟨c, h1, h2⟩ <;> subst h2 <;>
+      exact invF_move h rfl (by cls) (by cls) rfl (fun _ _ _ hs => hs) rfl rfl
   | call k a hp hsub =>
     refine invF_move h rfl (by cls) (by cls) rfl ?_ rfl rfl
     intro k' u hk' hs'
@@ -228,6 +233,11 @@ theorem invO_step {s s' : St} {t : Tid} (hL : InvL s) (hC : InvC s) (hF : InvF s
     · have hdt : d = t := by
         have := (hL.mxP t).2 (by simp [hp, Pc.holdsX]); rw [this] at hd; injection hd with hd; exact hd.symm
       subst hdt; simp [hp, Pc.between] at hb
+  | skipShared c hp hf => exact invO_move h rfl (none_prom (by simp [Pc.promise])) rfl rfl rfl rfl
+  | failTry p p' hp hpp hfail =>
+    subst hp
+    rcases hpp with ⟨k, a, h1, h2⟩ | ⟨c, h1, h2⟩ <;> subst h2 <;>
+      exact invO_move h rfl (none_prom (by simp [Pc.promise])) rfl rfl rfl rfl
   | call k a hp hsub =>
     have hnk : ∀ b, s.inSeq b → b ≠ k := by
       intro b hb he; subst he; exact hC.seqSub b hb hsub
@@ -528,6 +538,11 @@ theorem invU_step {s s' : St} {t : Tid} (hL : InvL s) (hC : InvC s) (h : InvU s)
     subst hp
     exact invU_move h rfl (by intro k hk; rw [hc.running] at hk; exact hk) (by intro k hk; rw [hc.running]; exact hk) rfl rfl
   | skipDrain c hp hf => exact invU_move h rfl (none_run (by simp [Pc.running])) (by intro k hk; simp_all [Pc.running]) rfl rfl
+  | skipShared c hp hf => exact invU_move h rfl (none_run (by simp [Pc.running])) (by intro k hk; simp_all [Pc.running]) rfl rfl
+  | failTry p p' hp hpp hfail =>
+    subst hp
+    rcases hpp with ⟨k, a, h1, h2⟩ | ⟨c, h1, h2⟩ <;> subst h2 <;>
+      exact invU_move h rfl (none_run (by simp [Pc.running])) (by intro k hk; simp_all [Pc.running]) rfl rfl
   | call k a hp hsub => exact invU_move h rfl (none_run (by simp [Pc.running])) (by intro k hk; simp_all [Pc.running]) rfl rfl
   | lockX p p' hp hpp hm hs =>
     subst hp
